@@ -228,6 +228,17 @@ def stripped(a: Optional[str]) -> Optional[str]:
     return None if a is None else a.lstrip('*')
 
 
+def first_types_key(case: Dict[str, Any]) -> Optional[str]:
+    """the first key of FieldHandler.types: the first parameter of the signature, or -- for an empty signature -- the
+    first name a @type field introduces"""
+    if case['sig']:
+        return case['sig'][0][0]
+    for t, a in case['fields']:
+        if t == 'type' and a is not None:
+            return stripped(a)
+    return None
+
+
 def oracle_fields(case: Dict[str, Any], obs: Dict[str, Any]) -> List[Dict[str, Any]]:
     """C09 on one field list handled by the REAL FieldHandler: every field shows its text (the marker B<i>) exactly once,
     under the label its tag belongs to, or a warning was reported for it.  Returns one finding per silent loss, with the
@@ -290,8 +301,8 @@ def oracle_fields(case: Dict[str, Any], obs: Dict[str, Any]) -> List[Dict[str, A
         elif tag == 'type' and is_fn and arg is not None and any(
                 t == 'type' and a is not None and stripped(a) == stripped(arg) for t, a in fields[i + 1:]):
             cls = 'replaced:type'
-        elif tag == 'type' and case['obj'] in (1, 2) and arg is not None and case['sig'] and \
-                stripped(arg) == case['sig'][0][0] == ('self' if case['obj'] == 1 else 'cls') and not any(
+        elif tag == 'type' and case['obj'] in (1, 2) and arg is not None and \
+                stripped(arg) == first_types_key(case) == ('self' if case['obj'] == 1 else 'cls') and not any(
                     t in PARAMISH and a is not None and stripped(a) == stripped(arg) for t, a in fields):
             cls = 'type-of-stripped-self'
         elif tag in ELSEWHERE and is_fn:
@@ -309,14 +320,19 @@ def oracle_fields(case: Dict[str, Any], obs: Dict[str, Any]) -> List[Dict[str, A
 class Check(PropertyCheck):
     id = 'C09'
     props_module = 'Props.C09'
-    models = {'segments': 'XSegments.v', 'fields': 'XFields.v'}
+    models = {'segments': 'XSegments.v', 'fields': 'XFields.v', 'epyinline': 'XEpyInline.v'}
     needs_gen = True
     gen_modules = ['gen_c09']
     rule = ('(A) code/doctest bodies: every string of <= N characters over a 10-letter alphabet of the characters the '
             'highlighter reacts to, a corpus, generated Python snippets / doctest sessions and random junk; non-trivial = at '
             'least 3 yielded pieces of 2 different styles; (B) field lists: every list of <= 2 fields over every handler tag '
             'x 4 arguments on 2 signatures (+ every single field on 6 objects), a corpus and random lists of <= 7 fields on '
-            'random signatures/objects; non-trivial = at least 2 fields and one emitted section; (C) documents: see below')
+            'random signatures/objects; non-trivial = at least 2 fields and one emitted section; (C) documents: N intended '
+            'documents (paragraphs, nested bullet/ordered lists, bold/italic/code/links, literal, doctest and code blocks, a '
+            'section, fields of every kind with multi-paragraph bodies and types, on a function / class / module) each '
+            'serialised to epytext, restructuredtext, google and numpy + N plaintext docstrings; non-trivial = at least 2 block '
+            'kinds and one field; (D) epytext inline markup: every string of <= N characters over {, }, B, x, E, <, >, space, '
+            'generated well-formed markup trees (with the shown text known) and random junk, tree-for-tree against _colorize')
     trusted_base = [
         'Coq 8.16.1 kernel; vm_compute for the _refuted witnesses, Examples and table well-formedness; no native_compute; no axioms',
         'translator harness/gen/gen_c09.py (fail-closed): handle_* table, format() plan, str.rstrip class, pinned PROMPT2_RE/DEFINE_FUNC_RE',
@@ -328,7 +344,29 @@ class Check(PropertyCheck):
     assumptions = ['re.finditer contract for DOCTEST_RE and DOCTEST_EXAMPLE_RE (Spec/Conserve.v)',
                    'the docstring is not inherited (field.source is self.obj) in the FieldHandler model']
     manifest = {
-        'text': '', 'note': '', 'technique': '',
+        'text': ('Theorems (unbounded) over executable Gallina models tied to /repo on every run: the code highlighter '
+                 '(doctest.colorize_codeblock_body, subfunc, colorize_doctest_body) yields exactly the input text for every '
+                 'string and every finditer result that satisfies the re.finditer contract, its assertions cannot fire '
+                 '(C09_codeblock_conserves); doctest bodies likewise up to white space at the end of an expected-output block, '
+                 'stated exactly (C09_doctest_conserves_partial, _exact_when_normal, _exact_refuted); FieldHandler (every handle_* '
+                 'method, resolve_types, format; the handle_* table and the format() plan are REGENERATED from the live class) '
+                 'shows the text of every field of a function docstring in exactly one row under the label its tag belongs to, '
+                 'or reports it -- outside five input classes that are proved to be dropped silently (C09_fields_routed_partial, '
+                 'eight _refuted witnesses: duplicate @return/@rtype/@yield/@ytype, duplicate @type x, @ivar/@cvar/@var in a '
+                 'function, duplicate @keyword, @type self); format() emits every bucket once under the documented label '
+                 '(C09_format_emits_every_bucket); parameter rows are in signature order, then leftovers, **kwargs last, '
+                 'dropping only an undocumented self/cls (C09_param_order*); a plaintext docstring is one <p class=pre> holding '
+                 'the docstring (C09_plaintext_exact). Tie: exhaustive + random piece-for-piece correspondence of both models '
+                 'with the real functions (real regex spans fed to the model, contract checked on them), and a structure-aware '
+                 'document generator rendered through format_docstring in epytext / reST / google / numpy / plaintext with the '
+                 'property as oracle (word sequence of the description, verbatim blocks, every field under its entry or warned).'),
+        'note': ('Partial: the block structurers (epytext _tokenize/parse, docutils, napoleon), node2stan and extract_fields are '
+                 'not modelled -- they are covered by the document oracle only; epytext._colorize is modelled (Model/EpyInline.v, '
+                 'tree-for-tree correspondence) and proved to show well-formed markup as written for regions, literal braces, '
+                 'escapes and symbols (C09_epytext_inline_conserves_partial) but not for L{}/U{} links. The guard of C09_fields_routed_partial over-approximates class (d) (all parameter duplicates). '
+                 'Trusted: Coq kernel, gen_c09.py, the finditer contracts of Spec/Conserve.v (re-checked on every span the real '
+                 're returned), extraction + driver, the Python harness. Known findings on the unchanged tree: see known_findings/C09.json.'),
+        'technique': 'Coq proof (conservation by induction over span lists; counting invariant over the field fold) + regenerated tables + exhaustive/random correspondence + generated-document oracle',
     }
 
     # ------------------------------------------------------------------ A. bodies
@@ -444,6 +482,76 @@ class Check(PropertyCheck):
             self.sample({'fields': c})
         return out
 
+    # ------------------------------------------------------------------ D. epytext inline markup
+    def inline_cases(self) -> List[Dict[str, Any]]:
+        quick = self.tier == 'quick'
+        cases: List[Dict[str, Any]] = [{'text': t} for t in [
+            '', 'plain', 'B{bold} x', 'a C{x{y}z} I{B{n}}', '{lit}', 'X{unk}', 'a } b', 'B{open', 'E{lb}E{rb}E{.}E{xx}',
+            'S{alpha} S{nope}', 'U{label<http://x.y>} L{a.b} L{bad name} U{www.x.org} L{f()}', 'L{a B{b}<t.u>}', 'L{B{b}}',
+            'ABC{x}', 'x{', '}', 'E{}', 'S{}', 'L{}', 'U{<x>}', 'L{a<b>c}', 'L{x <URL:http://a.b>}', 'B{a}{b}', 'aB{c}', 'B{}']]
+        small = G.small_strings(4 if quick else 6, ['{', '}', 'B', 'x', 'E', '<', '>', ' '])
+        cases += [{'text': t} for t in small]
+        self.stats['inline_exhaustive'] = len(small)
+        n = 1500 if quick else 40000
+        for _ in range(n):
+            ast = G.gen_inline_ast(self.rng)
+            cases.append({'text': G.inline_print(ast), 'want': G.inline_visible(ast)})
+        for _ in range(n // 3):
+            pool = ['{', '}', 'B', 'L', 'U', 'E', 'S', 'x', ' ', '<', '>', 'lb', 'alpha', '.', 'a.b', 'http://x', 'é', '\n']
+            cases.append({'text': ''.join(self.rng.choice(pool) for _ in range(self.rng.randint(1, 14)))})
+        self.stats['inline_random'] = n + n // 3
+        return cases
+
+    def check_inline(self, cases: List[Dict[str, Any]]) -> List[Violation]:
+        out: List[Violation] = []
+        obs = lib.run_impl_worker('c09_epyinline.py', [c['text'] for c in cases], jobs=16)
+        ins = [enc([c['text'], [[a, m, x, y] for a, m, x, y in o['splits']], [[t, tg, ok, cl] for t, tg, ok, cl in o['targets']]])
+               for c, o in zip(cases, obs)]
+        mod = self.model('epyinline', ins)
+
+        def canon(t: Any) -> Any:
+            if t[0] == 0:
+                return [0, txt(t[1])]
+            return [1, t[1]] + [canon(k) for k in t[2:]]
+        ncorr = norac = 0
+        nt = 0
+        for c, o, m in zip(cases, obs, mod):
+            if o.get('exc'):
+                if ncorr < 5:
+                    ncorr += 1
+                    out.append(Violation('oracle', 'epytext._colorize raised ' + o['exc'], case={'inline': c}, observed={'class': 'exception'}))
+                continue
+            mm = dec(m)
+            m_tree = canon(mm[0])
+            m_errs = [[5 if e[0] == 6 else e[0], 0 if e[0] == 7 else e[1]] for e in mm[1]]
+            o_errs = [[e[0], 0 if e[0] == 7 else e[1]] for e in o['errors']]
+            self.count('inline_errors_%d' % min(len(o_errs), 3))
+            if '{' in c['text'] and not o_errs:
+                nt += 1
+            if (m_tree != o['tree'] or m_errs != o_errs or (o['visible'] is not None and o['visible'] != txt(mm[2]))) and ncorr < 8:
+                ncorr += 1
+                out.append(Violation('correspondence', 'Model.EpyInline and epytext._colorize disagree', case={'inline': c},
+                                     expected={'tree': m_tree, 'errors': m_errs, 'visible': txt(mm[2])},
+                                     observed={'tree': o['tree'], 'errors': o_errs, 'visible': o['visible']}))
+            w = self.inline_oracle(c, o)
+            if w and norac < 8:
+                norac += 1
+                out.append(Violation('oracle', w, case={'inline': c}, observed={'class': 'inline-text', 'visible': o['visible'],
+                                                                                   'errors': o['errors']}))
+        self.evaluations += len(cases)
+        self.nontrivial_inline = nt
+        return out
+
+    @staticmethod
+    def inline_oracle(c: Dict[str, Any], o: Dict[str, Any]) -> Optional[str]:
+        if 'want' not in c:
+            return None
+        if o['errors']:
+            return 'well-formed inline markup %r is reported as an error: %s' % (c['text'], o['errors'])
+        if o['visible'] != c['want']:
+            return 'inline markup %r is shown as %r, the author wrote %r' % (c['text'], o['visible'], c['want'])
+        return None
+
     # ------------------------------------------------------------------ C. whole documents
     def doc_cases(self, n: int, nplain: int) -> List[Dict[str, Any]]:
         cases: List[Dict[str, Any]] = []
@@ -513,9 +621,11 @@ class Check(PropertyCheck):
         quick = self.tier == 'quick'
         out += self.check_bodies(self.body_cases())
         out += self.check_fields(self.field_cases())
+        out += self.check_inline(self.inline_cases())
         out += self.check_docs(self.doc_cases(600 if quick else 10000, 600 if quick else 10000))
         self.exhaustive = True
-        self.stats['distinct_nontrivial'] = self.nontrivial_bodies + self.nontrivial_fields + self.nontrivial_docs
+        self.stats['distinct_nontrivial'] = (self.nontrivial_bodies + self.nontrivial_fields + self.nontrivial_docs
+                                             + self.nontrivial_inline)
         return out
 
     def search(self, broken: List[Violation]) -> List[Violation]:
@@ -569,6 +679,14 @@ class Check(PropertyCheck):
             if not fs:
                 print('property: holds on this input')
             return 1 if bad else 0
+        if 'inline' in case:
+            c = case['inline']
+            o = lib.run_impl_worker('c09_epyinline.py', [c['text']])[0]
+            w = self.inline_oracle(c, o)
+            print('token text:', repr(c['text'])); print('tree      :', o['tree']); print('errors    :', o['errors'])
+            print('visible   :', repr(o['visible']))
+            print('property  :', w or 'holds on this input')
+            return 1 if w else 0
         if 'document' in case:
             c = case['document']
             w = self.doc_worker_case(c)
